@@ -345,6 +345,9 @@ FeatureMapPositive == FMPosOf(Cfg, arch)
 WellFormed         == ArchOK(Cfg, arch)
 \* every advertised method can be called in every reachable architecture (never advertised-but-disabled)
 AllMethodsEnabled  == \A m \in Methods(Cfg) : Succ(Cfg, arch, m) # {}
+\* (DESIGN's MethodsAdvertised: Next quantifies over exactly Methods(Cfg); that the real object's mutation_methods
+\*  contain Methods(c) and nothing outside AllMethods(c) is a clause of Arch_Trace on every observed step)
+MethodsAdvertised  == AllMethodsEnabled
 \* every parameter tensor has a shape of positive extents (Shapes is total on reachable architectures)
 ShapesTotal == LET S == Shapes(Cfg, arch) IN
                DOMAIN S # {} /\ \A n \in DOMAIN S : Len(S[n]) >= 1 /\ \A i \in 1..Len(S[n]) : S[n][i] >= 1
